@@ -11,7 +11,6 @@ from ..core import HarnessError, Result, use_repo
 
 use_repo()
 
-from ..engine.harness import Stuck, _teardown, _VDuringTask  # noqa: E402
 from ..engine.planlang import M, SEQ, PlanLog, build_plan  # noqa: E402
 from ..engine.schedloop import SchedLoop  # noqa: E402
 
@@ -138,17 +137,48 @@ class Model:
 # runner
 
 
-class _DT(_VDuringTask):
+class Stuck(BaseException):
+    """The engine can make no further progress while a blocking call is pending."""
+
+
+class _DT:
+    """during_task of the RunEngine: blocks the calling thread until the engine is done; reports an exact
+    'stuck' verdict when the loop is quiescent and no helper thread is left that could release it."""
+
     def __init__(self, loop, blocked):
-        super().__init__(loop)
+        self.loop = loop
         self.blocked = blocked
 
     def block(self, ev):
+        loop = self.loop
         self.blocked.set()
         try:
-            return super().block(ev)
+            loop.open_gate()
+            while True:
+                if ev.wait(0.02):
+                    return
+                if loop.is_stuck() and not ev.is_set():
+                    # ev.set() happens on the loop thread before it goes idle
+                    if loop.is_stuck() and not ev.is_set():
+                        raise Stuck()
         finally:
             self.blocked.clear()
+
+
+def _teardown(obs):
+    loop = getattr(obs, "_loop", None)
+    th = getattr(obs, "_th", None)
+    if loop is None:
+        return
+    try:
+        if loop.is_running():
+            loop.call_soon_threadsafe(loop.stop)
+        if th is not None:
+            th.join(5)
+        if not loop.is_running():
+            loop.close()
+    except Exception:  # noqa: BLE001
+        pass
 
 
 class Obs:
@@ -654,6 +684,20 @@ def check_case(case):
             )
     if not executed_all and not res.failures:
         res.classes.append("history_cut_short")
+        res.obs = {
+            "ops_executed": len(obs.ops),
+            "calls": [{k: repr(v)[:200] for k, v in c.items() if k != "plog"} for c in obs.calls],
+            "stuck": obs.stuck,
+            "final_state": obs.final_state,
+        }
+        import os
+
+        if os.environ.get("VERIF_C31_DEBUG"):
+            import json
+            import time
+
+            os.makedirs("/tmp/c31_cutshort", exist_ok=True)
+            json.dump({"case": case, "obs": res.obs}, open(f"/tmp/c31_cutshort/{int(time.time() * 1000)}.json", "w"), default=repr)
     res.nontrivial = nontrivial
     if obs.requests:
         res.classes.append("request_suspend_seen")
